@@ -14,6 +14,7 @@
 package main
 
 import (
+	"encoding/json"
 	"encoding/xml"
 	"errors"
 	"fmt"
@@ -954,6 +955,17 @@ func classesOf(vs []violation) string {
 
 var stopProf = func() {}
 
+// replayClass reads the class recorded in a violation artefact ("" if absent).
+func replayClass(path string) string {
+	var a struct {
+		Class string `json:"class"`
+	}
+	if b, err := os.ReadFile(path); err == nil {
+		json.Unmarshal(b, &a)
+	}
+	return a.Class
+}
+
 func main() {
 	r := lib.Start("C26", "exploration")
 	lib.Quiet()
@@ -989,8 +1001,11 @@ func main() {
 		} else {
 			vs = newDocEnv().checkDoc(*rw.Doc)
 		}
+		want := replayClass(r.Replay)
 		for _, v := range vs {
-			r.Violate(v.class, rw, v.detail)
+			if want == "" || v.class == want { // only the class this artefact was written for (others have their own artefacts)
+				r.Violate(v.class, rw, v.detail)
+			}
 		}
 		finish(lib.Coverage{Evaluations: 1, DistinctNontrivial: 1, Rule: "replay", Samples: []any{rw}, Exhaustive: true})
 	}
@@ -1079,7 +1094,9 @@ func main() {
 	if !r.Quick() {
 		goN = 4
 	}
-	runDocs(collect(func(f func(doc)) { goDocs(goN, f) }))
+	goAll := collect(func(f func(doc)) { goDocs(goN, f) })
+	sort.SliceStable(goAll, func(i, j int) bool { return len(entries(goAll[i].Cases)) < len(entries(goAll[j].Cases)) }) // simplest first
+	runDocs(goAll)
 
 	// flake sequences
 	type fspace struct {
